@@ -484,7 +484,10 @@ def _strload(val: str | bytes) -> PythonValueT:
         return compat.json.loads(val)
 
     decoded = decode(val)
-    with contextlib.suppress(ValueError, TypeError, SyntaxError):
+    # MemoryError/RecursionError: the Python parser gives up on pathological nesting.
+    with contextlib.suppress(
+        ValueError, TypeError, SyntaxError, MemoryError, RecursionError
+    ):
         return ast.literal_eval(decoded)
 
     return decoded
